@@ -1,5 +1,6 @@
 import CCT.Props.C14
 import CCT.Props.C06
+import CCT.Model.Reasons
 /-!
 # C13 — failures are fail-closed and use the documented error families
 
@@ -149,5 +150,210 @@ theorem class_version_mismatch (C : CryptoFns) (t u : J) (ht : IsRootMd t) (hu :
 theorem class_type_mismatch (C : CryptoFns) (name : PStr) (u t : J) (gpg : Bool) (hT : Schema t) (hU : isSignableJ u = true)
     (h : TypeMismatch name u) : verifyDelegationJ C name u t gpg = .error .metadataVerification :=
   C06.type_mismatch_error C name u t gpg hT hU h
+
+
+/-! ## applicable rejection reasons (`Model/Reasons.lean`): the class reported is always one whose reason holds -/
+
+theorem resOk_checker (m : J) : resOk (checkDelegatingMdJ m) = true ↔ Schema m := by
+  rw [checkDelegatingMd_eq]; by_cases h : Schema m <;> simp [h, resOk]
+
+theorem rootMdB_iff (m : J) : rootMdB m = true ↔ IsRootMd m := by
+  unfold rootMdB IsRootMd
+  rw [Bool.and_eq_true, Bool.and_eq_true, resOk_checker]
+  constructor
+  · rintro ⟨⟨h1, h2⟩, h3⟩
+    refine ⟨h1, ?_, h3⟩
+    cases hty : typeOf m <;> simp [hty] at h2 ⊢
+    exact h2
+  · rintro ⟨h1, h2, h3⟩
+    refine ⟨⟨h1, ?_⟩, h3⟩
+    simp [h2]
+
+theorem typeMismatchB_iff (name : PStr) (u : J) : typeMismatchB name u = true ↔ TypeMismatch name u := by
+  unfold typeMismatchB TypeMismatch
+  rw [Bool.and_eq_true, resOk_checker, schema_signedOnly]
+  simp
+
+theorem ruleOkB_iff (C : CryptoFns) (gpg : Bool) (d u : J) (hd : DelegationOK d) (hu : isSignableJ u = true) :
+    ruleOkB C gpg d u = true ↔ RuleMet C gpg d u := by
+  unfold ruleOkB
+  rw [rule_verdict C gpg d u hd hu]
+  by_cases h : RuleMet C gpg d u <;> simp [h, resOk]
+
+/-- declarative reading of the reason set of `verify_root` -/
+theorem verifyRootReasons_mem (C : CryptoFns) (t u : J) (e : PyErr) :
+    e ∈ verifyRootReasons C t u ↔
+      (e = .arg ∧ ¬ (IsRootMd t ∧ IsRootMd u)) ∨
+      (IsRootMd t ∧ IsRootMd u ∧
+        ((e = .metadataVerification ∧ versionOf u ≠ versionOf t + 1) ∨
+         (e = .signature ∧ ¬ (RuleMet C true (rootRule t) u ∧ RuleMet C true (rootRule u) u)))) := by
+  unfold verifyRootReasons
+  by_cases h : IsRootMd t ∧ IsRootMd u
+  · have hb : (rootMdB t && rootMdB u) = true := by simp [(rootMdB_iff t).mpr h.1, (rootMdB_iff u).mpr h.2]
+    have r1 := ruleOkB_iff C true (rootRule t) u (C03.rootRule_ok h.1) (C03.isRootMd_signable h.2)
+    have r2 := ruleOkB_iff C true (rootRule u) u (C03.rootRule_ok h.2) (C03.isRootMd_signable h.2)
+    simp only [hb, Bool.not_true, Bool.false_eq_true, if_false, List.mem_append]
+    by_cases hv : versionOf t + 1 ≠ versionOf u
+    · have hv' : versionOf u ≠ versionOf t + 1 := fun x => hv x.symm
+      by_cases hr : RuleMet C true (rootRule t) u ∧ RuleMet C true (rootRule u) u
+      · have : (ruleOkB C true (rootRule t) u && ruleOkB C true (rootRule u) u) = true := by simp [r1.mpr hr.1, r2.mpr hr.2]
+        simp [hv, hv', this, h, hr]
+      · have : (ruleOkB C true (rootRule t) u && ruleOkB C true (rootRule u) u) = false := by
+          cases hx : (ruleOkB C true (rootRule t) u && ruleOkB C true (rootRule u) u) with
+          | false => rfl
+          | true => rw [Bool.and_eq_true] at hx; exact absurd ⟨r1.mp hx.1, r2.mp hx.2⟩ hr
+        simp [hv, hv', this, h, hr]
+    · have hv' : versionOf u = versionOf t + 1 := by omega
+      have hv2 : versionOf t + 1 = versionOf u := hv'.symm
+      by_cases hr : RuleMet C true (rootRule t) u ∧ RuleMet C true (rootRule u) u
+      · have : (ruleOkB C true (rootRule t) u && ruleOkB C true (rootRule u) u) = true := by simp [r1.mpr hr.1, r2.mpr hr.2]
+        simp [hv2, this, h, hr]
+      · have : (ruleOkB C true (rootRule t) u && ruleOkB C true (rootRule u) u) = false := by
+          cases hx : (ruleOkB C true (rootRule t) u && ruleOkB C true (rootRule u) u) with
+          | false => rfl
+          | true => rw [Bool.and_eq_true] at hx; exact absurd ⟨r1.mp hx.1, r2.mp hx.2⟩ hr
+        simp [hv2, this, h, hr]
+  · have hb : (rootMdB t && rootMdB u) = false := by
+      cases hx : (rootMdB t && rootMdB u) with
+      | false => rfl
+      | true => rw [Bool.and_eq_true] at hx; exact absurd ⟨(rootMdB_iff t).mp hx.1, (rootMdB_iff u).mp hx.2⟩ h
+    simp only [hb, Bool.not_false, if_true, List.mem_singleton]
+    constructor
+    · intro he; exact Or.inl ⟨he, h⟩
+    · rintro (⟨he, _⟩ | ⟨a, b, _⟩)
+      · exact he
+      · exact absurd ⟨a, b⟩ h
+
+/-- **`verify_root` reports only classes whose reason applies** -/
+theorem verifyRoot_reports_applicable (C : CryptoFns) (t u : J) (e : PyErr) (h : verifyRootJ C t u = .error e) :
+    e ∈ verifyRootReasons C t u := by
+  rw [verifyRootReasons_mem]
+  by_cases h1 : IsRootMd t ∧ IsRootMd u
+  · right
+    by_cases hv : versionOf u = versionOf t + 1
+    · by_cases hm : RuleMet C true (rootRule t) u ∧ RuleMet C true (rootRule u) u
+      · rw [(C03.verifyRoot_iff C t u).mpr ⟨h1.1, h1.2, hv, hm.1, hm.2⟩] at h; cases h
+      · rw [C03.insufficient_error C t u h1.1 h1.2 hv hm] at h; cases h
+        exact ⟨h1.1, h1.2, Or.inr ⟨rfl, hm⟩⟩
+    · rw [C03.version_mismatch_error C t u h1.1 h1.2 hv] at h; cases h
+      exact ⟨h1.1, h1.2, Or.inl ⟨rfl, hv⟩⟩
+  · left
+    rw [C03.malformed_error C t u h1] at h; cases h
+    exact ⟨rfl, h1⟩
+
+/-- **`verify_root` accepts exactly when no rejection reason applies** -/
+theorem verifyRoot_accepts_iff_no_reason (C : CryptoFns) (t u : J) :
+    verifyRootJ C t u = .ok () ↔ verifyRootReasons C t u = [] := by
+  constructor
+  · intro h
+    apply List.eq_nil_iff_forall_not_mem.mpr
+    intro e he
+    rw [verifyRootReasons_mem] at he
+    obtain ⟨h1, h2, hv, hm1, hm2⟩ := (C03.verifyRoot_iff C t u).mp h
+    rcases he with ⟨_, hn⟩ | ⟨_, _, ⟨_, hx⟩ | ⟨_, hx⟩⟩
+    · exact hn ⟨h1, h2⟩
+    · exact hx hv
+    · exact hx ⟨hm1, hm2⟩
+  · intro h
+    rcases C03.verifyRoot_outcomes C t u with h' | h' | h' | h'
+    · exact h'
+    all_goals (have := verifyRoot_reports_applicable C t u _ h'; rw [h] at this; cases this)
+
+/-- declarative reading of the reason set of `verify_delegation` -/
+theorem verifyDelegationReasons_mem (C : CryptoFns) (name : PStr) (u t : J) (gpg : Bool) (e : PyErr) :
+    e ∈ verifyDelegationReasons C name u t gpg ↔
+      (e = .arg ∧ ¬ (Schema t ∧ isSignableJ u = true)) ∨
+      (Schema t ∧ isSignableJ u = true ∧
+        ((e = .metadataVerification ∧ TypeMismatch name u) ∨
+         (e = .unknownRole ∧ roleOf t name = none) ∨
+         (e = .signature ∧ ∃ d, roleOf t name = some d ∧ ¬ RuleMet C gpg d u))) := by
+  unfold verifyDelegationReasons
+  by_cases h : Schema t ∧ isSignableJ u = true
+  · have hb : (resOk (checkDelegatingMdJ t) && isSignableJ u) = true := by simp [(resOk_checker t).mpr h.1, h.2]
+    simp only [hb, Bool.not_true, Bool.false_eq_true, if_false, List.mem_append]
+    have tm : typeMismatchB name u = true ↔ TypeMismatch name u := typeMismatchB_iff name u
+    cases hr : roleOf t name with
+    | none =>
+      by_cases hm : TypeMismatch name u
+      · simp [tm.mpr hm, hm, h]
+      · have : typeMismatchB name u = false := by
+          cases hx : typeMismatchB name u with
+          | false => rfl
+          | true => exact absurd (tm.mp hx) hm
+        simp [this, hm, h]
+    | some d =>
+      have rr := ruleOkB_iff C gpg d u (mem_delegations_ok h.1 hr) h.2
+      by_cases hm : TypeMismatch name u
+      · by_cases hq : RuleMet C gpg d u
+        · simp [tm.mpr hm, hm, h, rr.mpr hq, hq]
+        · have : ruleOkB C gpg d u = false := by
+            cases hx : ruleOkB C gpg d u with
+            | false => rfl
+            | true => exact absurd (rr.mp hx) hq
+          simp [tm.mpr hm, hm, h, this, hq]
+      · have tmf : typeMismatchB name u = false := by
+          cases hx : typeMismatchB name u with
+          | false => rfl
+          | true => exact absurd (tm.mp hx) hm
+        by_cases hq : RuleMet C gpg d u
+        · simp [tmf, hm, h, rr.mpr hq, hq]
+        · have : ruleOkB C gpg d u = false := by
+            cases hx : ruleOkB C gpg d u with
+            | false => rfl
+            | true => exact absurd (rr.mp hx) hq
+          simp [tmf, hm, h, this, hq]
+  · have hb : (resOk (checkDelegatingMdJ t) && isSignableJ u) = false := by
+      cases hx : (resOk (checkDelegatingMdJ t) && isSignableJ u) with
+      | false => rfl
+      | true => rw [Bool.and_eq_true] at hx; exact absurd ⟨(resOk_checker t).mp hx.1, hx.2⟩ h
+    simp only [hb, Bool.not_false, if_true, List.mem_singleton]
+    constructor
+    · intro he; exact Or.inl ⟨he, h⟩
+    · rintro (⟨he, _⟩ | ⟨a, b, _⟩)
+      · exact he
+      · exact absurd ⟨a, b⟩ h
+
+/-- **`verify_delegation` reports only classes whose reason applies** -/
+theorem verifyDelegation_reports_applicable (C : CryptoFns) (name : PStr) (u t : J) (gpg : Bool) (e : PyErr)
+    (h : verifyDelegationJ C name u t gpg = .error e) : e ∈ verifyDelegationReasons C name u t gpg := by
+  rw [verifyDelegationReasons_mem]
+  rw [verifyDelegation_eq] at h
+  by_cases h1 : ¬ Schema t ∨ isSignableJ u ≠ true
+  · rw [if_pos h1] at h; cases h
+    left; refine ⟨rfl, ?_⟩; rintro ⟨a, b⟩; rcases h1 with x | x; exact x a; exact x b
+  · rw [if_neg h1] at h
+    have hT : Schema t := by by_cases x : Schema t; exact x; exact absurd (Or.inl x) h1
+    have hU : isSignableJ u = true := by by_cases x : isSignableJ u = true; exact x; exact absurd (Or.inr x) h1
+    right; refine ⟨hT, hU, ?_⟩
+    by_cases h2 : TypeMismatch name u
+    · rw [if_pos h2] at h; cases h; exact Or.inl ⟨rfl, h2⟩
+    · rw [if_neg h2] at h
+      cases hr : roleOf t name with
+      | none => rw [hr] at h; cases h; exact Or.inr (Or.inl ⟨rfl, rfl⟩)
+      | some d =>
+        rw [hr] at h
+        simp only [rule_verdict C gpg d u (mem_delegations_ok hT hr) hU] at h
+        by_cases hm : RuleMet C gpg d u
+        · rw [if_pos hm] at h; cases h
+        · rw [if_neg hm] at h; cases h; exact Or.inr (Or.inr ⟨rfl, d, rfl, hm⟩)
+
+/-- **`verify_delegation` accepts exactly when no rejection reason applies** -/
+theorem verifyDelegation_accepts_iff_no_reason (C : CryptoFns) (name : PStr) (u t : J) (gpg : Bool) :
+    verifyDelegationJ C name u t gpg = .ok () ↔ verifyDelegationReasons C name u t gpg = [] := by
+  constructor
+  · intro h
+    apply List.eq_nil_iff_forall_not_mem.mpr
+    intro e he
+    rw [verifyDelegationReasons_mem] at he
+    obtain ⟨hT, hU, hm, d, hd, hq⟩ := (C05.verifyDelegation_iff C name u t gpg).mp h
+    rcases he with ⟨_, hn⟩ | ⟨_, _, ⟨_, hx⟩ | ⟨_, hx⟩ | ⟨_, d', hd', hx⟩⟩
+    · exact hn ⟨hT, hU⟩
+    · exact hm hx
+    · rw [hd] at hx; cases hx
+    · rw [hd] at hd'; cases hd'; exact hx hq
+  · intro h
+    cases hr : verifyDelegationJ C name u t gpg with
+    | ok x => cases x; rfl
+    | error e => have := verifyDelegation_reports_applicable C name u t gpg e hr; rw [h] at this; cases this
 
 end CCT.C13
